@@ -1061,7 +1061,13 @@ fn gen_dir(r: &mut Rng, st: &mut Out) -> Option<GenDir> {
 	}
 	if defect != "no-root" { files.push(FileSpec { name: format!("{}.tiny", names[0]), rank: 0, content: root_content.clone() }); }
 	if defect == "two-roots" {
-		let other = if r.chance(1, 2) { "zz-second".to_owned() } else { names[n - 1].clone() };
+		// a second root for another version, or for the SAME version under another spelling (the other half of a split root
+		// version, or a half where the first file uses the full `client~server` string): still two root files
+		let other = match (r.below(4), names[0].split_once('~')) {
+			(0 | 1, Some((a, b))) if a != b => { st.stats.hit("two-roots:same-version-other-spelling"); if r.chance(1, 2) { b.to_owned() } else { a.to_owned() } }
+			(2, _) => "zz-second".to_owned(),
+			_ => names[n - 1].clone(),
+		};
 		files.push(FileSpec { name: format!("{other}.tiny"), rank: 0, content: root_content.clone() });
 	}
 	if defect == "swapped-content" && r.chance(1, 2) { if let Some(f) = files.first_mut() { f.content = empty_diff.clone(); } }
